@@ -54,7 +54,7 @@ MUTANTS = [
     # ---- C02
     dict(name="c02-nlz-zero-remainder", props=["C02"], edits=[(HL, "    return n - uint8(x)\n", "    if x == zero:\n        return n - uint8(1)\n    return n - uint8(x)\n")]),
     dict(name="c02-merge-skip-last-register", props=["C02"], edits=[(HL, "    for i in range(m):\n        registers[i] = max(registers[i], other_registers[i])", "    for i in range(m - 1):\n        registers[i] = max(registers[i], other_registers[i])")]),
-    dict(name="c02-rank-cap-32", props=["C02", "C17"], edits=[(HL, "    rank = _n_leading_zeros64(bits) - p + 1\n", "    rank = min(_n_leading_zeros64(bits) - p + 1, 32)\n")]),
+    dict(name="c02-rank-cap-32", props=["C02"], edits=[(HL, "    rank = _n_leading_zeros64(bits) - p + 1\n", "    rank = min(_n_leading_zeros64(bits) - p + 1, 32)\n")]),
     dict(name="c02-ngram-skips-last-window", props=["C02", "C12"], edits=[(HL, "        for i in range(key_len - (ngram - uint64(1))):\n            _add(registers, seed, p, m, key[i : i + ngram])", "        for i in range(key_len - ngram):\n            _add(registers, seed, p, m, key[i : i + ngram])")]),
     dict(name="c02-add-value0-skipped", props=["C02"], edits=[(HL, "        _add(self.registers, self.seed, self.p, self.m, key)\n", "        if value:\n            _add(self.registers, self.seed, self.p, self.m, key)\n")]),
     dict(name="c02-nlz-shift8-branch", props=["C02"], edits=[(HL, "    y = x >> uint64(8)\n    if y != zero:\n        n = n - uint8(8)", "    y = x >> uint64(8)\n    if y > uint64(1):\n        n = n - uint8(8)")]),
